@@ -10,7 +10,7 @@ PROP = 'C04'
 TRACE_MODULE = 'C04Trace.tla'
 RULE = ('sources: TLC-enumerated heaps of the DAG machine (ordinary and exotic), random shared DAGs, width-boundary DAGs '
         '(255/256/257 cells; 255/256/257-byte payloads; thorough: 65535/65536/65537), each serialised with all 6 valid option '
-        'sets; distinct = distinct emitted byte strings')
+        'sets; pools of live Cell objects emitted under several roots one after another (inner cells first); distinct = distinct emitted byte strings')
 ASSUMPTIONS = ['TonBoc.Decode is the strict reading of crypto/tl/boc.tlb + vm/boc.cpp (model-checked against its own encoder in MC_Boc)',
                'the src->bag cell map is an untrusted hint verified by IsoVia', 'TonCrc anchored on catalogue vectors']
 
@@ -68,6 +68,24 @@ def sources(tier, seed, ctx):
     return src
 
 
+def emit_record(root, sheap, rootidx, note, o):
+    rec = {'op': 'emit', 'note': note, 'opts': o, 'src': sheap, 'root': rootidx}
+    try:
+        data = bk.emit(root, o)
+    except Exception as e:
+        rec.update(boc=[], map=[], err=type(e).__name__)
+        return rec
+    rec['boc'] = list(data)
+    try:
+        bag, _, starts = bk.scan(data)
+        rec['map'] = bk.map_heap_to(sheap, bk.positions_by_content(bag))
+        if len(bag) > 300:
+            rec['offs'] = [s + 1 for s in starts]
+    except Exception:
+        rec['map'] = [0] * len(sheap)
+    return rec
+
+
 def generate(tier, seed, ctx):
     rng = random.Random(seed)
     out = []
@@ -82,22 +100,31 @@ def generate(tier, seed, ctx):
         for o in bk.OPTION_SETS:
             if big and not (o['idx'] and o['crc']) and rng.random() < 0.6:
                 continue
-            rec = {'op': 'emit', 'note': note, 'opts': o, 'src': sheap, 'root': roots[0]}
-            try:
-                data = bk.emit(root, o)
-            except Exception as e:
-                rec.update(boc=[], map=[], err=type(e).__name__)
-                out.append(rec)
-                continue
-            rec['boc'] = list(data)
-            try:
-                bag, _, starts = bk.scan(data)
-                rec['map'] = bk.map_heap_to(sheap, bk.positions_by_content(bag))
-                if len(bag) > 300:
-                    rec['offs'] = [s + 1 for s in starts]
-            except Exception:
-                rec['map'] = [0] * len(sheap)
-            out.append(rec)
+            out.append(emit_record(root, sheap, roots[0], note, o))
+    # the same live Cell objects emitted under several roots, inner cells first: every emission must conform on its own
+    # (what a cell looked like inside an earlier bag must not leak into a later one)
+    from pytoniq_core.boc import Builder
+
+    def mk(bits, refs):
+        b = Builder().store_uint(bits, 9)
+        for r in refs:
+            b.store_ref(r)
+        return b.end_cell()
+    k = 0
+    for pool in range(6 if tier == 'quick' else 100):
+        y, z, q = mk(rng.getrandbits(9), []), mk(rng.getrandbits(9), []), mk(rng.getrandbits(9), [])
+        x = mk(rng.getrandbits(9), [y, z])
+        p = mk(rng.getrandbits(9), [y])
+        cells = [y, z, q, x, p]
+        for _ in range(rng.randint(0, 3)):
+            cells.append(mk(rng.getrandbits(9), rng.sample(cells, rng.randint(1, 3))))
+        roots_ = [x, p, mk(1, [p, x]), mk(2, [q, x]), mk(3, [x, p]), mk(5, [q, p, x])]
+        roots_ += [mk(6 + j, rng.sample(cells, rng.randint(2, 4))) for j in range(3)]
+        for root in roots_:
+            sheap, rts, _ = ck.project([root])
+            sheap, rts = ck.dedup(sheap, rts)
+            k += 1
+            out.append(emit_record(root, sheap, rts[0], 'sharedlive', bk.OPTION_SETS[k % 6]))
     return out
 
 
